@@ -119,7 +119,7 @@ Ltac fa := repeat match goal with
   | |- Forall _ _ => progress (unfold rp_inits, copy_default_eps, opt_client, client_locs, inst_locs; cbn)
   end.
 Ltac tab := cbn; repeat rewrite Nat.eqb_refl; cbn; repeat rewrite orb_true_r; cbn; try reflexivity.
-Ltac cases o := destruct o as [i stor opts|i sl|i sl t opts|i cfg opts|i c st t|i c st t|i c t|i stor q|st|i c k|i c|i c|i c|c k|i c k r];
+Ltac cases o := destruct o as [i stor opts|i sl|i sl t opts|i cfg opts|i c st t|i c st t|i c t|i stor q|st|i c k|i c|i c|i c|c k|sl|i c k r];
   try destruct q; try destruct k; try destruct c; try destruct st; cbn.
 
 Definition own_in (ids : list nat) (l : loc) : bool :=
